@@ -44,9 +44,21 @@ func hostilePayload(w *World, kind int, sp *Speaker, cfg c02cfg) ([]byte, string
 	case 5:
 		t := byte(w.Range(1, 4, "mtype"))
 		return MkFrame(t, w.RandBytes(4077, "mb")), fmt.Sprintf("maxlen-type%d", t)
-	default:
+	case 6:
 		n := Pick(w, "nlen", 0, 1, 2, 3, 4077)
 		return MkFrame(MsgNotification, w.RandBytes(n, "nb")), fmt.Sprintf("notification-%d", n)
+	default: // a header with one faulty field (the reader's own error paths)
+		m := AllOnes()
+		l, t := uint16(19), byte(4)
+		switch w.Draw(3, "hfault") {
+		case 0:
+			m[w.Draw(16, "hmi")] = 0
+		case 1:
+			l = uint16(Pick(w, "hlen", 0, 18, 4097, 65535, 1))
+		default:
+			t = byte(Pick(w, "htyp", 0, 5, 255))
+		}
+		return MkRawHeader(m, l, t, nil), fmt.Sprintf("bad-header(len=%d,type=%d)", l, t)
 	}
 }
 
@@ -163,13 +175,25 @@ func runC05(w *World) {
 			}
 		}
 		if reached {
-			kind := w.Draw(7, "kind")
+			kind := w.Draw(8, "kind")
 			if phase == 3 && w.Chance(2, 3, "preferupd") {
 				kind = 3
 			}
 			pl, d := hostilePayload(w, kind, v.Speaker, cfg)
+			// pipelines: further pieces follow in the same byte stream, so that the
+			// reader meets them while the FSM is still reacting to the first
+			for np := w.Draw(3, "npieces"); np > 0 && kind != 4; np-- {
+				k2 := w.Draw(8, "kind2")
+				if k2 == 4 && np > 1 {
+					k2 = 7
+				}
+				p2, d2 := hostilePayload(w, k2, v.Speaker, cfg)
+				pl = append(pl, p2...)
+				d += " + " + d2
+				w.Probe("pipelined-piece")
+			}
 			desc = append(desc, fmt.Sprintf("%s@%s/%s", d, []string{"connected", "OpenSent", "OpenConfirm", "Established"}[phase], dir))
-			w.Probe("payload-kind:" + []string{"random", "typed-random-body", "mutated-open", "grammar-updates", "truncated", "maxlen", "notification"}[kind])
+			w.Probe("payload-kind:" + []string{"random", "typed-random-body", "mutated-open", "grammar-updates", "truncated", "maxlen", "notification", "bad-header"}[kind])
 			w.Probe("phase:" + []string{"connected", "OpenSent", "OpenConfirm", "Established"}[phase])
 			c.SendSeg(pl)
 			w.NonTrivial = true
